@@ -60,7 +60,7 @@ CLAIMED = {
              text="Random update histories (tombstones, id holes) on AAFramework<String>; after random steps the framework is written in Aspartix format and read back, and TLC compares labels in order, attack set and line count with the abstract state it carried itself; extensions (incl. empty), statuses and 'no extension' through both response writers must read back exactly.",
              ref="5 (C14)"),
  "C19": dict(tech="EquivalencyComputer output judged by TLC: classes sound w.r.t. CO(af) of Dung.tla, mappings total and inverse",
-             text="All frameworks <= 3 arguments, 4-argument classes, shaped, random and grounded-mix frameworks (propagation-sensitive shapes) through the reducer; TLC computes CO(af) and checks that merged arguments belong to the same complete extensions, that classes partition the arguments and that the two mappings are inverse on classes. The clause "grounded arguments together, defeated arguments together" is judged on every framework; frameworks of 20-500 arguments (64-200 unattacked arguments, small undecided part) are judged through the grounded reduct (MCDung ReductTheorem, TLAPS proofs/ReductLemma).",
+             text="All frameworks <= 3 arguments, 4-argument classes, shaped, random and grounded-mix frameworks (propagation-sensitive shapes) through the reducer; TLC computes CO(af) and checks that merged arguments belong to the same complete extensions, that classes partition the arguments and that the two mappings are inverse on classes. The clause 'grounded arguments together, defeated arguments together' is judged on every framework; frameworks of 20-500 arguments (64-200 unattacked arguments, small undecided part) are judged through the grounded reduct (MCDung ReductTheorem, TLAPS proofs/ReductLemma).",
              ref="5 (C19)"),
 }
 
